@@ -4,6 +4,7 @@ from checks.tsutil import *
 from checks.orswotgen import *
 
 ID = 'C03'
+LEAN_MODULES = ['C03', 'C03b']
 RULE = ('one case = 2-3 replicas (OrSWotSet<1|2>) each built from its own list of inserts/deletes (pairwise distinct stamps, <=3 origins, <=4 keys; '
         'half of the cases with all stamps of one origin inside the forgiveness window, boundary gaps F-4/F/F+4 included), then a sequence of merges in '
         'every order / grouping / repetition up to length 4; after the merges: dump, get, cut-off probes, and the Lean LWW oracle over the union of the '
